@@ -2,7 +2,7 @@
    The reference semantics is the Gallina interpreter VM/Exec.v (step / update / run), which the
    correspondence check compares with the real Executor on every generated program.  The theorems below
    pin down the laws that semantics obeys for all programs, stacks and heaps.  Proofs: VM/ExecProofs.v. *)
-From MelVerif Require Import Base.Arith VM.Op Generated VM.Weight VM.Exec VM.LoopProofs VM.ExecProofs VM.LoopCount.
+From MelVerif Require Import Base.Arith VM.Op Generated VM.Weight VM.Exec VM.LoopProofs VM.ExecProofs VM.LoopCount VM.Codec VM.CodecProofs VM.ValueRange.
 Open Scope N_scope.
 
 (* 256-bit wrapping arithmetic *)
@@ -116,3 +116,50 @@ Example C10_loop_runs_n_times :
                     | Finished (Some (VInt v)) _ => v =? n
                     | _ => false end) [1; 2; 3; 10; 100; 1000] = true.
 Proof. vm_compute. reflexivity. Qed.
+
+(* ---- the model never leaves the domain the implementation can represent: integers stay below 2^256 (U256),
+   bytes below 256 (u8), in the stack and in the heap, whatever is executed - so a value of the reference semantics
+   always is a MelVM value.  [vwf] / [stwf]: the value / the state is in range; [opwf]: a literal of the program is
+   in range (the decoder produces only such literals); the two length instructions are in range whenever the
+   measured sequence has fewer than 2^256 elements. *)
+Theorem C10_in_range_def : forall v,
+  vwf v = match v with
+          | VInt n => n <? U256
+          | VBytes l => forallb (fun b => b <? 256) l
+          | VVec l => forallb vwf l
+          end.
+Proof. exact vwf_def. Qed.
+Print Assumptions C10_in_range_def.
+Theorem C10_state_in_range_def : forall s, stwf s = forallb vwf (stack s) && forallb (fun kv => vwf (snd kv)) (heap s).
+Proof. exact stwf_def. Qed.
+Print Assumptions C10_state_in_range_def.
+Theorem C10_literal_in_range_def : forall o,
+  opwf o = match o with PushI n | PushIC n => n <? U256 | PushB b => forallb (fun x => x <? 256) b | _ => true end.
+Proof. exact opwf_def. Qed.
+Print Assumptions C10_literal_in_range_def.
+Theorem C10_length_in_range_def : forall o s,
+  length_in_range o s <->
+  match o, stack s with
+  | VLength, VVec l :: _ => len l < U256
+  | BLength, VBytes l :: _ => len l < U256
+  | _, _ => True
+  end.
+Proof. exact length_in_range_def. Qed.
+Print Assumptions C10_length_in_range_def.
+
+Theorem C10_every_instruction_keeps_values_in_range : forall O, (forall b, forallb (fun x => x <? 256) (o_hash O b) = true) ->
+  forall o s s', opwf o = true -> length_in_range o s -> stwf s = true -> exec_op O o s = Some s' -> stwf s' = true.
+Proof. exact exec_op_range. Qed.
+Print Assumptions C10_every_instruction_keeps_values_in_range.
+
+Theorem C10_every_step_keeps_values_in_range : forall O prog s s',
+  (forall b, forallb (fun x => x <? 256) (o_hash O b) = true) -> forallb opwf prog = true ->
+  (forall o, nth_error prog (N.to_nat (pc s)) = Some o -> length_in_range o s) ->
+  stwf s = true -> step O prog s = Some s' -> stwf s' = true.
+Proof. exact step_range. Qed.
+Print Assumptions C10_every_step_keeps_values_in_range.
+
+(* the premise about the literals holds for every program the decoder accepts *)
+Theorem C10_decoded_literals_in_range : forall bs ops, bytes_ok bs -> decode_all bs = Some ops -> forallb opwf ops = true.
+Proof. exact decoded_literals_in_range. Qed.
+Print Assumptions C10_decoded_literals_in_range.
